@@ -74,6 +74,20 @@ pub fn interesting_ts(tzf: &TzFile, salt: u64, per_kind: usize) -> Vec<i64> {
             out.extend([jan1, jan1 + 181 * 86_400, jan1 + 59 * 86_400, jan1 + 60 * 86_400 + 43_200]);
         }
     }
+    // "every Unix timestamp from the first transition onward": with a footer rule and no (or an
+    // early) table that includes years far from the present - before 0001-01-01 (no year 0), the
+    // first and last supported years, five-digit years
+    if let Some(r) = &tzf.rule {
+        const FAR: [i64; 22] = [-5_879_610, -5_879_609, -400_001, -401, -400, -101, -100, -5, -4, -2, -1, 1, 2, 4, 100, 1582, 1899, 2501, 9_999, 10_000, 400_000, 5_879_610];
+        for _ in 0..per_kind.min(4) {
+            let y = FAR[rnd(FAR.len() as u64) as usize];
+            for (inst, _) in r.events(y) {
+                out.extend([inst - 1, inst, inst + 1]);
+            }
+            let jan1 = (cal::days_from_ymd(y, 1, 1) - cal::DAYS_TO_1970) * 86_400;
+            out.extend([jan1 + 181 * 86_400, jan1 + 20 * 86_400, jan1 + 340 * 86_400]);
+        }
+    }
     for _ in 0..per_kind {
         out.push(TS_MIN + rnd((TS_MAX - TS_MIN) as u64) as i64);
     }
@@ -137,7 +151,7 @@ pub fn judge(c: &Case, cx: &mut Cx) -> Verdict {
     let first = tzf.transitions.first().map(|t| t.0);
     let last = tzf.transitions.last().map(|t| t.0);
     for &t in &c.ts {
-        if !(-62_135_596_800 + 172_800..253_402_300_800 - 172_800).contains(&t) {
+        if !(super::c03::MIN_TS + 172_800..super::c03::MAX_TS - 172_800).contains(&t) {
             continue;
         }
         let Some(want) = tzf.offset_at(t) else { continue };
@@ -145,6 +159,9 @@ pub fn judge(c: &Case, cx: &mut Cx) -> Verdict {
         let at_transition = tzf.transitions.binary_search_by(|p| p.0.cmp(&t)).is_ok();
         if at_transition {
             cx.nt("ts_exactly_at_a_transition");
+        }
+        if !(-62_135_596_800..253_402_300_800).contains(&t) {
+            cx.nt("ts_outside_years_1..9999");
         }
         let after_table_with_footer = tzf.rule.is_some() && matches!(last, Some(l) if t >= l);
         if after_table_with_footer {
